@@ -1389,7 +1389,7 @@ def paging_api(rng, name):
     return api
 
 
-def lro_api(rng, name, broken=None):
+def lro_api(rng, name, broken=None, rest=False):
     """operation_info type-resolution matrix (C08).  broken in {None, 'no_response', 'no_metadata', 'both_empty'}
     produces a request that must be rejected."""
     api = Api(name)
@@ -1471,6 +1471,19 @@ def lro_api(rng, name, broken=None):
         tags.add("broken:" + broken)
     api.options = ["transport=grpc", "autogen-snippets=false"]
     api.info.update(pkg=pkg, version=ver, ns=["vp"], name=name, host=f"{name}.googleapis.com")
+    if rest:
+        # over REST the operation future polls google.longrunning.Operations where the service YAML's http rules say it is
+        # served — whether or not the YAML also lists Operations as a mixin under `apis`
+        api.options = ["transport=grpc+rest", "autogen-snippets=false"]
+        prefix = rng.choice(["/lro/v1", "/v1beta9/ops", "/x"])
+        in_apis = (rng.random() < 0.5) if rest is True else (rest == "listed")
+        rules = [{"selector": "google.longrunning.Operations.GetOperation", "get": prefix + "/{name=operations/**}"},
+                 {"selector": "google.longrunning.Operations.CancelOperation", "post": prefix + "/{name=operations/**}:cancel", "body": "*"},
+                 {"selector": "google.longrunning.Operations.DeleteOperation", "delete": prefix + "/{name=operations/**}"},
+                 {"selector": "google.longrunning.Operations.ListOperations", "get": prefix + "/{name=operations}"}]
+        api.aux["service-yaml"] = ("svc.yaml", service_yaml(api, mixins=["operations"] if in_apis else [], rules={"operations": []}, extra_rules=rules))
+        api.info["rest_lro"] = {"prefix": prefix, "operations_listed_under_apis": in_apis}
+        tags.update(["rest-lro", "ops-in-apis:" + str(in_apis)])
     return api
 
 
